@@ -94,7 +94,7 @@ theorem filterAddC_lawful : Lawful filterAddC := iso_lawful varBytes_lawful (fun
 theorem rejectC_lawful : Lawful rejectC :=
   iso_lawful
     (dpair_lawful varStr_lawful fun _ =>
-      pair_lawful u8_lawful (pair_lawful varStr_lawful (bytesN_lawful _)))
+      pair_lawful u8_lawful (pair_lawful varStr_lawful (vecBytes_lawful _)))
     (fun _ => rfl) (fun _ _ => rfl)
 
 theorem protoconfC_lawful : Lawful protoconfC :=
@@ -119,7 +119,7 @@ theorem prefilledC_lawful : Lawful prefilledC :=
 theorem cmpctblockC_lawful : Lawful cmpctblockC :=
   iso_lawful
     (pair_lawful blockHeaderC_lawful (pair_lawful u64_lawful
-      (pair_lawful (listTry_lawful (vecBytes_lawful _)) (listTry_lawful prefilledC_lawful))))
+      (pair_lawful (listTry_lawful (bytesN_lawful _)) (listTry_lawful prefilledC_lawful))))
     (fun _ => rfl) (fun _ _ => rfl)
 
 theorem getblocktxnC_lawful : Lawful getblocktxnC :=
